@@ -35,8 +35,9 @@
     strings only.  [load_config d] (Mvs/Cache.v) is what resolveProject reads out of a project directory [d].
     The root project's two configuration files (Mvs/LoadRoot.v): [load_config_loop obs rne pick fuel toml dot] is
     project_config.go loadConfig on a root directory whose dawn.toml / .dawnconfig are [toml] / [dot] (missing, not a
-    configuration, a configuration); [rne c]: the error mvs.BuildList reports for the requirements c unwraps to
-    fs.ErrNotExist; [project_config toml dot]: the project's configuration (dawn.toml's when there is one). *)
+    configuration, a configuration); [project_config toml dot]: the project's configuration (dawn.toml's when there
+    is one); [load_config_loop_former]: loadConfig before 15786e0, where [rne c] (the error mvs.BuildList reports for
+    the requirements c unwraps to fs.ErrNotExist) decided. *)
 From Dawn Require Import Mvs.Spec Mvs.Proofs_C10 Mvs.Cache Mvs.Proofs_Cache Mvs.Load Mvs.Proofs_Load Mvs.Locate
   Mvs.Proofs_Locate Mvs.Gate Mvs.Proofs_Gate Mvs.LoadRoot Mvs.Proofs_LoadRoot.
 
@@ -158,16 +159,15 @@ Theorem load_fails_or_solution :
 Proof. exact Proofs_Load.load_fails_or_solution. Qed.
 Print Assumptions load_fails_or_solution.
 
-(** the root project, loaded from its own two files: Load fails or Project.buildList is the solution of the graph of the
-    project's configuration -- when the root has ONE configuration file, or the failure BuildList reports is not a
-    missing file *)
+(** the root project, loaded from its own two files (project_config.go loadConfig): over any cache that resolvers,
+    faults, kills and damage from outside have worked on, Load fails or Project.buildList is the solution of the graph
+    of the project's own configuration -- its dawn.toml when it has one, whatever a left-over .dawnconfig holds *)
 Theorem load_root_fails_or_solution :
   forall (U : universe) (deliver : node -> option (list wr)) (W : node -> Prop),
     deliver_sound U deliver W -> key_sound U W -> requirements_closed U W ->
     forall (obs : node -> option summary) (rne : config -> bool) (pick : list node -> nat) (fuel : nat)
            (toml dot : root_file) (c : config),
       project_config toml dot = Some c ->
-      (toml = RMissing \/ dot = RMissing \/ rne c = false) ->
       observed_damaged deliver W obs -> (forall m, In m (map snd c) -> fst m = [] \/ W m) ->
       (u_fuel U (map snd c) <= fuel)%nat ->
       (exists b, load_config_loop obs rne pick fuel toml dot = FErr b) \/
@@ -175,19 +175,19 @@ Theorem load_root_fails_or_solution :
 Proof. exact Proofs_LoadRoot.load_root_fails_or_solution. Qed.
 Print Assumptions load_root_fails_or_solution.
 
-(** REFUTED without that proviso (a defect of project_config.go loadConfig, reported; DESIGN section 5): the root has a
-    dawn.toml and a left-over .dawnconfig, and a cache entry has lost its configuration file -- loadConfig takes the
-    "does not exist" inside mvs.BuildList's error for a missing dawn.toml, loads the left-over file, and Load succeeds
-    with a list that is not the solution of the project's requirement graph (with the cache intact it is) *)
-Theorem load_root_left_over_refuted :
+(** the loadConfig of before 15786e0 (the error of loadConfigFile decided whether to go on to .dawnconfig), REFUTED:
+    the root has a dawn.toml and a left-over .dawnconfig and a cache entry has lost its configuration file -- the
+    "does not exist" inside mvs.BuildList's error was taken for a missing dawn.toml, the left-over file loaded, and Load
+    succeeded with a list that is not the solution of the project's requirement graph; today's loadConfig fails *)
+Theorem load_root_former_refuted :
   exists (U : universe) (c c' : config) (keys : list node) (l : list (str * version)),
     let obs := obs_damaged U keys in
     project_config (RConfig c) (RConfig c') = Some c /\
-    (forall pick, load_config_loop obs (fun _ => true) pick (u_fuel U (map snd c)) (RConfig c) (RConfig c') = FOk l) /\
+    (forall pick, load_config_loop_former obs (fun _ => true) pick (u_fuel U (map snd c)) (RConfig c) (RConfig c') = FOk l) /\
     ~ mvs_solution (reachable_from U (map snd c)) l /\
-    (forall pick, load_config_loop (obs_damaged U []) (fun _ => true) pick (u_fuel U (map snd c)) (RConfig c) (RConfig c') <> FOk l).
-Proof. exact Proofs_LoadRoot.load_root_left_over_refuted. Qed.
-Print Assumptions load_root_left_over_refuted.
+    (forall pick, exists b, load_config_loop obs (fun _ => true) pick (u_fuel U (map snd c)) (RConfig c) (RConfig c') = FErr b).
+Proof. exact Proofs_LoadRoot.load_root_former_refuted. Qed.
+Print Assumptions load_root_former_refuted.
 
 (** the repository lookup does not depend on what the resolver looked up before (in which order the projects of a
     repository were met): a memo hit is what a miss would compute *)
